@@ -189,6 +189,10 @@ where
             return (ret, false);
         }
 
+        if unwinding {
+            execution.threads.active_mut().suspended_unwind = true;
+        }
+
         let switch = execution.schedule();
 
         trace!(?switch, "branch");
